@@ -567,6 +567,44 @@ theorem collapse_tiproot_oracle (crit : Crit) (sel : SplitE → Bool) (rr rt : B
   apply collapseOK_tiproot_of crit rt rr d p e _ c c' _ ho hl hd
   rw [holds_tipRootEnt, ← hsel _ hm]
 
+/- ## the oracle the driver runs: `collapseOKr`, given the `--root` flag
+
+   `collapseOKr crit rt rr` is `collapseOK` plus the documented `--root` clause: with `rr` a root branch of a
+   rooted tree that meets the criterion must be gone too (without it, it stays optional); and the reading
+   of an absent length is ONE for the whole call.  The model passes it with the flag it was run with. -/
+
+theorem collapse_oracle_r (crit : Crit) (sel : SplitE → Bool) (rr rt : Bool) (t : T)
+    (hsel : ∀ s ∈ t.splits, sel s = critV crit (FF t.tipNames s.below, s.e, s.tip))
+    (hid : uniqueIds t = true) (h1 : t.kids.length ≠ 1) :
+    collapseOKr crit rt rr t (collapse sel rr rt t) = true := by
+  have ha1 : (collapse sel rr rt t).kids.length ≠ 1 := by
+    have := removeEdges_kids_len rr rt ((t.splits.filter sel).map (·.e.id)) t
+    by_cases hz : t.kids.length = 0
+    · have hk : t.kids = [] := List.length_eq_zero_iff.mp hz
+      cases t with
+      | node d p k =>
+        simp only [T.kids_node] at hk; subst hk
+        simp [collapse, T.splits, splitsL, removeEdges]
+    · unfold collapse; omega
+  cases rr with
+  | true =>
+    apply collapseOKr_of_obs' crit rt true t _ h1 ha1 (removeEdges_tipNames true rt _ t) (removeEdges_leaves true rt _ t).2
+    exact collapse_exact (FF t.tipNames) (FF_permInv _) sel (critV crit) true rt t hsel hid ⟨h1, Or.inl rfl⟩
+  | false => exact collapse_general_oracle crit sel rt t hsel hid h1
+
+theorem collapse_tiproot_oracle_r (crit : Crit) (sel : SplitE → Bool) (rr rt : Bool)
+    (d : NodeD) (p : Nat) (e : EdgeD) (c : T)
+    (hsel : ∀ s ∈ (T.node d p [(e, c)]).splits,
+      sel s = critV crit (FF (T.node d p [(e, c)]).tipNames s.below, s.e, s.tip))
+    (hid : uniqueIds (.node d p [(e, c)]) = true) :
+    collapseOKr crit rt rr (.node d p [(e, c)]) (collapse sel rr rt (.node d p [(e, c)])) = true := by
+  obtain ⟨c', heq, ho, hl, _, hd⟩ :=
+    collapse_tiproot (FF (T.node d p [(e, c)]).tipNames) (FF_permInv _) sel (critV crit) rr rt d p e c hsel hid
+  rw [heq]
+  have hm : (⟨c.leaves, e, c.isLeaf⟩ : SplitE) ∈ (T.node d p [(e, c)]).splits := by simp [T.splits, splitsL]
+  apply collapseOKr_tiproot_of crit rt rr d p e _ c c' _ ho hl hd
+  rw [holds_tipRootEnt, ← hsel _ hm]
+
 /- ## Resolve -/
 
 /-- ★ `resolve_refines`.  For EVERY list of draws on which the model of `Resolve` is defined
@@ -684,6 +722,7 @@ theorem resolve_tiproot_oracle (d : NodeD) (p : Nat) (e : EdgeD) (c t' : T) (dra
     resolveT_spec (FF (T.node d p [(e, c)]).tipNames) (FF_permInv _) false c draws c1 dsx hc
   obtain ⟨_, _, _, hdist, _⟩ := resolve_refines (fun _ => ()) permInv_unit _ _ draws h
   exact resolveOK_tiproot_of d p e c c1 hl hd ex hnew hobs hdist (resolve_deg3 _ _ draws h)
+    (resolveT_binary c draws c1 dsx hc)
 
 /-- The draw protocol.  The model of `Resolve` is defined EXACTLY on the draw lists that answer the
     `Intn` calls of the draw script of the tree (post-order, `Perm(l)` = `Intn(1)…Intn(l)` at every
@@ -787,6 +826,13 @@ example : uniqueIds exU = true ∧ RootOK false exU := ⟨by decide, by decide, 
 example : uniqueIds exR = true ∧ RootOK true exR := ⟨by decide, by decide, Or.inl rfl⟩
 example : uniqueIds exR = true ∧ exR.noSingle = true ∧ exR.rooted = true := ⟨by decide, by decide, by decide⟩
 
+-- hypotheses of `collapse_usplitsAll` / `resolve_usplitsAll` (every length absent or ≥ 0), of `cmdDepth_spec` (the
+-- trees can be indexed) and of `collapse_rooted_oracle` on the example trees
+example : LensGood exU.splits := by unfold LensGood GoodL; decide
+example : LensGood exS.splits := by unfold LensGood GoodL; decide
+example : reinitErr exU = false ∧ reinitErr exR = false := by decide
+example : uniqueIds exR = true ∧ exR.noSingle = true ∧ exR.kids.length = 2 := by decide
+
 /-- the length criterion includes the threshold itself (`<=`): the branch of length 0 goes at l = 0 -/
 theorem len_threshold_inclusive :
     ((collapseLen 0 false false exU).splits.map (·.e.id)) = [7, 1, 2, 4, 5, 6] ∧
@@ -853,6 +899,15 @@ theorem single_child_protected_pinned :
     (collapsePinned (selLen 1) false false exSg).splits.map (·.e.id) = [0, 1, 2, 3, 4, 5] ∧
     (collapseLen 1 false false exSg).splits.map (·.e.id) = [4, 5, 2, 3] ∧
     uniqueIds exSg = true ∧ exSg.noSingle = false := by decide
+
+/-- With `--root` nothing is optional: a selected inner branch — root branch or not — has no key the
+    oracle would accept afterwards (so a code that ignored the flag is an ORACLE failure; the corpus holds
+    such a hand-made pair), and under either reading the choice is the same for all branches. -/
+theorem root_flag_nothing_optional (sel : Ent → Bool) (rt : Bool) (e : Ent) :
+    optKeysR sel true e = [] ∧ (e.tip = false → sel e = true → mandKeyR sel rt e = none) := by
+  constructor
+  · simp [optKeysR]
+  · intro h1 h2; simp [mandKeyR, h1, h2]
 
 /-- `resolve` is defined on the draws it asks for (here: a star with 6 tips, `Perm(6)`), and the
     result is binary with 3 added branches -/
